@@ -20,6 +20,7 @@ RULE = (
     "mode are a failure (in both: inconclusive). "
     "Compositions: generated array programs (vh/progs.py). Non-trivial = both modes returned non-zero results; distinct "
     "by (template, feature tuple, argsel, carrier, complex mask)."
+    " adj:containers: C12's nested container arguments and access programs - the tangent for a direction equals the pairing of the reverse-mode gradient with it."
 )
 
 TOL = 1e-10
